@@ -143,6 +143,11 @@ def known(fid: str) -> bool:
     return False
 
 
+class Skip(Exception):
+    """The harness could not judge this point (its own machinery gave up, e.g. a scheduler time-out under load):
+    the path is ignored — it counts neither as a pass nor as a violation, and the partition cannot be CONFIRMED."""
+
+
 def run(body: Callable[..., Any], *args: Any) -> bool:
     """Run `body(*args)`; its truthiness is the property verdict on this path."""
     global SAMPLE_BUDGET
@@ -150,6 +155,12 @@ def run(body: Callable[..., Any], *args: Any) -> bool:
     INFO.clear()
     try:
         ok = body(*args)
+    except Skip as e:
+        if _tracing():
+            from crosshair.util import IgnoreAttempt
+            raise IgnoreAttempt("harness skipped this point: %s" % (e,))
+        INFO["skipped"] = str(e)
+        return True
     except Exception as e:  # only Exception: CrossHair steers with BaseException
         ok = False
         err = e
